@@ -20,7 +20,7 @@ TInit == /\ t \in 1 .. NT /\ l = 2 /\ devs = {}
          /\ host = [m \in ToSet(C.order) |-> C.host[m]]
          /\ phase = [m \in ToSet(C.order) |-> "absent"]
          /\ written = {} /\ polled = {} /\ cbdone = {} /\ state = "starting"
-         /\ stopped = {} /\ joined = {} /\ shut = {} /\ inflight = {}
+         /\ stopped = {} /\ joined = {} /\ shut = {} /\ inflight = {} /\ stopAt = 0
 
 Same == UNCHANGED vars
 D(name) == devs' = devs \cup {name}
@@ -41,42 +41,42 @@ TStep ==
      \/ Ev.ev = "poll_long" /\ PollBegin(Ev.m) /\ NoD
      \/ Ev.ev = "poll_end" /\ PollEnd(Ev.m) /\ NoD
      \/ Ev.ev = "started_cb" /\ StartedCb(Ev.m) /\ NoD
-     \/ Ev.ev = "ready" /\ Ready /\ NoD
+     \/ Ev.ev = "ready" /\ Ready(Ev.vt) /\ NoD
      \/ Ev.ev = "config_error" /\ Refuse /\ NoD
-     \/ Ev.ev = "begin_stop" /\ BeginStop /\ NoD
+     \/ Ev.ev = "begin_stop" /\ BeginStop(Ev.vt) /\ NoD
      \/ Ev.ev = "stop_poller" /\ Ev.m \notin stopped /\ StopPoller(Ev.m) /\ NoD
      \/ Ev.ev = "stop_poller" /\ Ev.m \in stopped /\ Same /\ NoD
      \/ Ev.ev = "join" /\ Join(Ev.m) /\ NoD
-     \/ Ev.ev = "shutdown" /\ Shutdown(Ev.m) /\ NoD
+     \/ Ev.ev = "shutdown" /\ Shutdown(Ev.m, Ev.vt) /\ NoD
      \/ Ev.ev = "down" /\ state = "down" /\ Same /\ NoD
      (* ---- deviations of the pinned code ---- *)
      \* a cycle walked through during initialisation re-enters earlyInit / initModule until the recursion limit
      \/ Ev.ev \in {"early", "init"} /\ Cyclic /\ Rank(phase[Ev.m]) >= 2 /\ state = "starting"
            /\ phase' = [phase EXCEPT ![Ev.m] = IF Ev.ev = "init" THEN "inited" ELSE @]
-           /\ UNCHANGED <<cfgvars, written, polled, cbdone, state, stopped, joined, shut, inflight>> /\ D("RepeatedInitOnCycle")
+           /\ UNCHANGED <<cfgvars, written, polled, cbdone, state, stopped, joined, shut, inflight, stopAt>> /\ D("RepeatedInitOnCycle")
      \/ Ev.ev = "attach" /\ Cyclic /\ Ev.t \in mods /\ Same /\ D("RepeatedInitOnCycle")
      \* modules are started (and may write / poll) although the configuration is going to be refused
      \/ Ev.ev = "start" /\ ~Healthy /\ state = "starting" /\ Rank(phase[Ev.m]) < 4
            /\ phase' = [phase EXCEPT ![Ev.m] = "started"]
-           /\ UNCHANGED <<cfgvars, written, polled, cbdone, state, stopped, joined, shut, inflight>> /\ D("StartedBeforeRefusal")
+           /\ UNCHANGED <<cfgvars, written, polled, cbdone, state, stopped, joined, shut, inflight, stopAt>> /\ D("StartedBeforeRefusal")
      \/ Ev.ev \in {"write", "poll", "started_cb"} /\ ~Healthy /\ state = "starting" /\ Same /\ D("StartedBeforeRefusal")
      \/ Ev.ev = "config_error" /\ ~Healthy /\ state = "starting" /\ (\E m \in mods : phase[m] = "started")
            /\ state' = "refused"
-           /\ UNCHANGED <<cfgvars, phase, written, polled, cbdone, stopped, joined, shut, inflight>> /\ D("StartedBeforeRefusal")
+           /\ UNCHANGED <<cfgvars, phase, written, polled, cbdone, stopped, joined, shut, inflight, stopAt>> /\ D("StartedBeforeRefusal")
      \* a module that is neither exported nor attached is started without ever being initialised
      \/ Ev.ev = "start" /\ Healthy /\ state = "starting" /\ phase[Ev.m] = "created"
            /\ phase' = [phase EXCEPT ![Ev.m] = "started"]
-           /\ UNCHANGED <<cfgvars, written, polled, cbdone, state, stopped, joined, shut, inflight>> /\ D("StartedUninitialised")
+           /\ UNCHANGED <<cfgvars, written, polled, cbdone, state, stopped, joined, shut, inflight, stopAt>> /\ D("StartedUninitialised")
      \/ Ev.ev = "ready" /\ Healthy /\ state = "starting" /\ "StartedUninitialised" \in devs
            /\ (\A m \in mods : phase[m] = "started") /\ state' = "ready"
-           /\ UNCHANGED <<cfgvars, phase, written, polled, cbdone, stopped, joined, shut, inflight>> /\ NoD
+           /\ UNCHANGED <<cfgvars, phase, written, polled, cbdone, stopped, joined, shut, inflight, stopAt>> /\ NoD
      \* a cyclic / dangling / wrongly typed attachment nobody looks at during start-up goes unnoticed
      \/ Ev.ev = "ready" /\ ~Healthy /\ (\A m \in mods : fail[m] = "none") /\ state = "starting" /\ state' = "ready"
-           /\ UNCHANGED <<cfgvars, phase, written, polled, cbdone, stopped, joined, shut, inflight>>
+           /\ UNCHANGED <<cfgvars, phase, written, polled, cbdone, stopped, joined, shut, inflight, stopAt>>
            /\ D(IF Cyclic THEN "ReadyDespiteCycle" ELSE "ReadyDespiteBadAttachment")
      \/ Ev.ev \in {"shutdown", "join", "stop_poller", "down", "begin_stop"} /\ ~Healthy /\ state \in {"ready", "stopping", "down"}
            /\ state' = (IF Ev.ev = "down" THEN "down" ELSE "stopping")
-           /\ UNCHANGED <<cfgvars, phase, written, polled, cbdone, stopped, joined, shut, inflight>> /\ NoD
+           /\ UNCHANGED <<cfgvars, phase, written, polled, cbdone, stopped, joined, shut, inflight, stopAt>> /\ NoD
 
 ReadyMeansStartedT == (devs = {}) => (ReadyMeansStarted /\ RefusedClean /\ ShutdownOrder)
 TSpec == TInit /\ [][TStep]_<<vars, t, l, devs>>
